@@ -293,7 +293,12 @@ class Engine(ExprMixin, CallMixin):
             if any(nm in ('Exception', 'BaseException') for nm in names):
                 return 'yes'    # '<any>' stands for any Exception subclass (KeyboardInterrupt/SystemExit not modelled)
             return 'maybe'
-        return 'yes' if any(self.src.is_subclass(exc.cls, nm) for nm in names) else 'no'
+        if any(self.src.is_subclass(exc.cls, nm) for nm in names):
+            return 'yes'
+        # a callee declared to raise C raises *some instance of C*, possibly of a subclass: a more specific handler may match
+        if exc.declared and any(self.src.is_subclass(nm, exc.cls) for nm in names):
+            return 'maybe'
+        return 'no'
 
     def st_Try(self, n, st):
         outs = []
@@ -568,6 +573,9 @@ class Engine(ExprMixin, CallMixin):
         if L is None:
             raise Refuse(f"for-loop {k} of {self.cur_key} (line {n.lineno}) over {it!r} has no loop contract")
         self.stats['loops'] += 1
+        fb = self.hooks.get('for_begin')
+        if fb:
+            fb(self, it, st, n)
         ns0 = NS(st.env, self.entry_env, st, self.entry_state)
         for idx, inv in enumerate(L.invariant):
             self.oblige(f"{tag}.inv{idx}.init", st, inv(ns0), kind='inv-init')
@@ -578,6 +586,9 @@ class Engine(ExprMixin, CallMixin):
         outs = []
         # exit: zero or all iterations done
         ex = h.fork()
+        fx = self.hooks.get('for_exit')
+        if fx:
+            fx(self, it, ex, n)
         nse = NS(ex.env, self.entry_env, ex, self.entry_state)
         for hint in L.exit_hints:
             ex.assume(hint(nse))
